@@ -77,9 +77,10 @@ def documented_unit(kind, block, cleaned, sfx):
     if kind == "cpp_class":
         return [c("cpp_class", ["K" + sfx, "B"], True), c("cpp_end_class", [])]
     if kind == "cpp_attr":
-        return [c("cpp_class", ["K" + sfx]), c("cpp_attr", ["K" + sfx, "at", "dv"], True), c("cpp_end_class", [])]
+        # (CMakePP type names are case-insensitive: members may spell their class differently from the cpp_class() argument)
+        return [c("cpp_class", ["K" + sfx]), c("cpp_attr", ["k" + sfx, "at", "dv"], True), c("cpp_end_class", [])]
     if kind == "cpp_member":
-        return [c("cpp_class", ["K" + sfx]), c("cpp_member", ["m", "K" + sfx, "int", "str"], True),
+        return [c("cpp_class", ["K" + sfx]), c("cpp_member", ["m", "k" + sfx, "int", "str"], True),
                 c("function", ["impl", "self", "x", "y"]), c("endfunction", []), c("cpp_end_class", [])]
     if kind == "cpp_constructor":
         return [c("cpp_class", ["K" + sfx]), c("cpp_constructor", ["CTOR", "K" + sfx, "int"], True),
